@@ -121,6 +121,12 @@ class Z3Tr:
                 out.append(g * g * dre == nre)
                 out.append(g >= 0)
                 todo |= a.free_gens()
+            elif kind == "cbrt":
+                a = m["arg"]
+                nre, nim, has_im = self.poly_ri(a.n)
+                dre, _, _ = self.poly_ri(a.d)
+                out.append(g * g * g * dre == nre)
+                todo |= a.free_gens()
             elif kind in ("pos", "scale"):
                 out.append(g > 0)
             elif kind == "sin":
